@@ -31,6 +31,9 @@ def check(prog, rep, tier):
                       'ROUTE-REFRESH HBB, KEEPALIVE empty body (length 19) enforced')
     rep.rule('R14.c', 'capability tables: class constants equal the IANA codes; every capability code the OPEN '
                       'encoder emits has an encoder branch and a decoder branch; unknown codes are kept')
+    rep.rule('R14.e', 'address-family names: the table that names a decoded <AFI, SAFI> (AFI_SAFI_DICT, used for ADD-PATH) '
+                      'and the table that turns a name into <AFI, SAFI> (AFI_SAFI_STR_DICT) are inverse bijections: no '
+                      'family has two names and every decoded name means the family it was decoded from')
     rep.rule('R14.d', 'field boundaries: no comparison in the OPEN / NOTIFICATION / KEEPALIVE / ROUTE-REFRESH codecs '
                       'splits a range between 2**k - 2 and 2**k - 1 (AS 65535 is a 2-octet AS)')
     rep.assumptions += ['value equality of the round trip is not decided; AS_TRANS handling is C05 R05.b']
@@ -339,6 +342,7 @@ def check(prog, rep, tier):
         'yabgp.message.open', 'yabgp.message.notification', 'yabgp.message.keepalive', 'yabgp.message.route_refresh'), 15)
     common.report_boundary_splits(prog, rep, 'R14.d', lambda fn: fn.module.name in (
         'yabgp.message.open', 'yabgp.message.notification', 'yabgp.message.keepalive', 'yabgp.message.route_refresh'))
+    family_names(prog, rep)
     # the capability dispatch is total over the codes 0..255 (finite partition)
     cap_dispatch_total(prog, rep, ocls)
     # unknown-code fallback in Open.parse
@@ -454,3 +458,42 @@ def cap_dispatch_total(prog, rep, ocls):
                 expected='every code 0..255 is recorded', key='cap-dispatch-total')
     else:
         rep.ok('R14.c', 'cap-dispatch-total', file=meth.file, line=head.lineno, found='256 codes matched')
+
+
+def family_names(prog, rep):
+    cm = prog.modules['yabgp.common.constants']
+    line = getattr(cm.assigns.get('AFI_SAFI_DICT'), 'lineno', None)
+    try:
+        dec = prog.fold(cm.assigns['AFI_SAFI_DICT'], cm)
+        enc = prog.fold(cm.assigns['AFI_SAFI_STR_DICT'], cm)
+    except Exception as e:
+        rep.undecided('R14.e', 'family-names', file=cm.relpath, line=line, found='tables not foldable: %s' % e)
+        return
+    if not isinstance(dec, dict) or not isinstance(enc, dict):
+        rep.undecided('R14.e', 'family-names', file=cm.relpath, line=line, found='tables are not dictionaries')
+        return
+    by_fam = {}
+    for name, fam in enc.items():
+        by_fam.setdefault(tuple(fam) if isinstance(fam, (list, tuple)) else fam, []).append(name)
+    n = 0
+    for fam in sorted(set(dec) | set(by_fam), key=repr):
+        key = 'family-name:%s' % (fam,)
+        names = by_fam.get(fam, [])
+        got = dec.get(fam)
+        if len(names) > 1:
+            rep.bad('R14.e', key, file=cm.relpath, line=line,
+                    found='family %s has %d names in AFI_SAFI_STR_DICT (%s); a decoded OPEN names it %r, the other '
+                          'name(s) never come back' % (fam, len(names), ', '.join(sorted(names)), got),
+                    expected='one name per family', key=key)
+        elif got is not None and enc.get(got) is not None and tuple(enc[got]) != fam:
+            rep.bad('R14.e', key, file=cm.relpath, line=line,
+                    found='a decoded %s is named %r, and that name means %s' % (fam, got, enc[got]),
+                    expected='name tables inverse to each other', key=key)
+        elif got is not None and names and got != names[0]:
+            rep.bad('R14.e', key, file=cm.relpath, line=line,
+                    found='a decoded %s is named %r but the configuration name of that family is %r' % (
+                        fam, got, names[0]), expected='name tables inverse to each other', key=key)
+        else:
+            n += 1
+            rep.ok('R14.e', key, file=cm.relpath, line=line, found='%r' % (got if got is not None else names[:1]))
+    rep.floor('R14.e', 'address families named', n, 12)
